@@ -77,4 +77,18 @@ theorem leaf_volume (ign : Bool) (v : Val) : leaf (some "transformVolumeMount") 
 theorem seg_volumes : seg "volumes" = "volumes" := by decide
 theorem seg_item : seg "[]" = "[]" := by decide
 
+theorem seg_devices : seg "devices" = "devices" := by decide
+theorem seg_secrets : seg "secrets" = "secrets" := by decide
+theorem seg_configs : seg "configs" = "configs" := by decide
+theorem list_attrs_no_handler (n : String) :
+    TPath.firstMatch CV.Gen.transformers ["services", n, "devices"] = none
+    ∧ TPath.firstMatch CV.Gen.transformers ["services", n, "secrets"] = none
+    ∧ TPath.firstMatch CV.Gen.transformers ["services", n, "configs"] = none := by
+  simp [TPath.firstMatch, CV.Gen.transformers, TPath.pmatch]
+
+theorem leaf_device (ign : Bool) (v : Val) : leaf (some "transformDeviceMapping") ign v = transformDeviceMapping ign v := by
+  simp [leaf]
+theorem leaf_fileMount (ign : Bool) (v : Val) : leaf (some "transformFileMount") ign v = transformFileMount v := by
+  simp [leaf]
+
 end CV.Short
